@@ -30,7 +30,12 @@ package local_test
 //     independent of the data of the renamed file unless that data was fsynced.  If p updates
 //     are pending, all 2^p subsets are enumerated when p <= FULL, otherwise all subsets that
 //     drop <= ND or keep <= NK of them (quick: FULL 10, ND 2, NK 1, write extents = syscalls;
-//     thorough: FULL 14, ND 4, NK 3, write extents split into 8 KiB blocks).
+//     thorough: FULL 16, ND 4, NK 3, write extents split into 8 KiB blocks).  On the unchanged
+//     tree at most 7 (quick) / 13 (thorough) updates are ever pending, so the subset enumeration
+//     is complete there; the bound only matters for mutants that drop fsyncs (counter
+//     crash_points_with_bounded_subsets).  Crash points with > 512 subsets are split into 16
+//     parts for sharding.  Temporary names (random os.CreateTemp suffix) are named by inode in
+//     state keys so that states are comparable across shards.
 //
 // Every distinct crash state of a crash point is materialised as a directory and the REAL
 // local.Open, Backend.List, Repository.List (ID parsing), Backend.Stat and Backend.Load run on it.
@@ -1715,6 +1720,9 @@ func TestVerif_C36(t *testing.T) {
 		parts := 1
 		if total > 512 {
 			parts = 16
+		}
+		if len(pend) > full && r.Case(fmt.Sprintf("weak|i=%d|part=0/%d", i, parts)) {
+			r.Count("crash_points_with_bounded_subsets", 1)
 		}
 		exp, during := tr.expect(i)
 		for part := 0; part < parts; part++ {
